@@ -1,8 +1,11 @@
-//! Input-shape classes used in fingerprints. A shape is computed from the *input* (and the requested
-//! configuration) only, never from the failure, and names the structural property of the input that
-//! the failure class depends on.
+//! Flag classes and input-shape classes used in fingerprints.
+//!
+//! Both are functions of the *request* (codec, flags, input) only — never of the failure — and are
+//! defined at the level of the format (which transform / entropy path the flags select, which
+//! structural property the symbol tables of that path have), so that one root cause gives one class.
+//! The first matching shape wins; the order puts the most specific structural property first.
 
-use crate::Conf;
+use crate::{Conf, codecs::Gp};
 
 pub struct Feat {
     pub len: usize,
@@ -22,48 +25,239 @@ pub fn feat(x: &[u8]) -> Feat {
     }
 }
 
-/// exploration version: all predicates spelled out
-pub fn bytes(_conf: &Conf, x: &[u8]) -> String {
-    let f = feat(x);
-    let len = match f.len {
-        0 => "0",
-        1..=3 => "1-3",
-        4..=31 => "4-31",
-        _ => "32+",
+/// The symbol list of a frequency table starts with 0x01 (0x01 present, 0x00 absent).
+fn first_sym_01(p: &[bool; 256]) -> bool {
+    p[1] && !p[0]
+}
+
+/// The symbol list has a run of >= 3 consecutive symbols that reaches 0xff (s-1, s, s+1..=0xff all
+/// present for some s <= 0xfe): the run-length byte written at `s` must count up to 0xff.
+fn run_to_ff(p: &[bool; 256]) -> bool {
+    p[255] && p[254] && p[253]
+}
+
+fn len_class(n: usize) -> &'static str {
+    match n {
+        0 => "len:0",
+        1..=3 => "len:1-3",
+        4..=31 => "len:4-31",
+        32..=255 => "len:32-255",
+        _ => "len:256+",
+    }
+}
+
+/// Bit packing as the format defines it (symbols in ascending order -> 0..nsym, low bits first).
+/// `None` when PACK does not apply (no symbols or more than 16).
+fn packed(x: &[u8], f: &Feat) -> Option<Vec<u8>> {
+    if f.nsym == 0 || f.nsym > 16 {
+        return None;
+    }
+    let mut map = [0u8; 256];
+    let mut k = 0;
+    for s in 0..256 {
+        if f.present[s] {
+            map[s] = k;
+            k += 1;
+        }
+    }
+    let per = match f.nsym {
+        1 => return Some(Vec::new()),
+        2 => 8,
+        3..=4 => 4,
+        _ => 2,
     };
-    let min1 = f.present[1] && !f.present[0];
-    let runff = (2..=255).any(|s| f.present[s - 1] && (s..=255).all(|t| f.present[t]) && s < 255);
-    let nsym = match f.nsym {
-        0 => "0",
-        1 => "1",
-        2 => "2",
-        3..=4 => "3-4",
-        5..=16 => "5-16",
-        _ => "17+",
-    };
-    format!(
-        "len:{len},min1:{},ff:{},runff:{},nsym:{nsym}",
-        min1 as u8, f.present[255] as u8, runff as u8
+    let w = 8 / per;
+    Some(
+        x.chunks(per)
+            .map(|c| c.iter().enumerate().fold(0u8, |a, (i, s)| a | map[*s as usize] << (w * i)))
+            .collect(),
     )
 }
 
-pub fn fqz(lens: &[usize], quals: &[u8]) -> String {
-    let recs = match lens.len() {
-        0 => "0",
-        1 => "1",
-        _ => "2+",
-    };
+/// rANS 4x8 order-1 tables: row c holds the symbols that follow c (context 0 also holds the first
+/// symbol of each of the four interleaved quarters).
+fn o1_rows(x: &[u8]) -> Vec<[bool; 256]> {
+    let mut rows = vec![[false; 256]; 256];
+    let q = x.len() / 4;
+    if q > 0 {
+        for k in 0..4 {
+            rows[0][x[k * q] as usize] = true;
+        }
+    }
+    for w in x.windows(2) {
+        rows[w[0] as usize][w[1] as usize] = true;
+    }
+    rows
+}
+
+pub fn nx16_class(flags: u8) -> String {
+    use grans::nx16::*;
+    if flags & STRIPE != 0 {
+        return "stripe".into();
+    }
+    let mut s = String::new();
+    if flags & PACK != 0 {
+        s.push_str("pack+");
+    }
+    if flags & RLE != 0 {
+        s.push_str("rle+");
+    }
+    s.push_str(if flags & CAT != 0 {
+        "cat"
+    } else if flags & ORDER != 0 {
+        "o1"
+    } else {
+        "o0"
+    });
+    s.push_str(if flags & N32 != 0 { "/n32" } else { "/n4" });
+    s
+}
+
+pub fn aac_class(flags: u8) -> String {
+    const ORDER: u8 = 0x01;
+    const EXT: u8 = 0x04;
+    const STRIPE: u8 = 0x08;
+    const CAT: u8 = 0x20;
+    const RLE: u8 = 0x40;
+    const PACK: u8 = 0x80;
+    if flags & STRIPE != 0 {
+        return "stripe".into();
+    }
+    let mut s = String::new();
+    if flags & PACK != 0 {
+        s.push_str("pack+");
+    }
+    s.push_str(if flags & CAT != 0 {
+        "cat"
+    } else if flags & EXT != 0 {
+        "ext"
+    } else {
+        match (flags & RLE != 0, flags & ORDER != 0) {
+            (true, false) => "rle/o0",
+            (true, true) => "rle/o1",
+            (false, false) => "o0",
+            (false, true) => "o1",
+        }
+    });
+    s
+}
+
+pub fn flag_class(conf: &Conf) -> String {
+    match conf {
+        Conf::R4x8(false) => "o0".into(),
+        Conf::R4x8(true) => "o1".into(),
+        Conf::Nx16(f) => nx16_class(*f),
+        Conf::Aac(f) => aac_class(*f),
+        Conf::Gp(Gp::Gzip(l)) | Conf::Gp(Gp::Bzip2(l)) | Conf::Gp(Gp::Lzma(l)) => format!("level{l}"),
+    }
+}
+
+pub fn bytes(conf: &Conf, x: &[u8]) -> String {
+    let f = feat(x);
+    if f.len == 0 {
+        return "empty".into();
+    }
+    match conf {
+        Conf::R4x8(false) => {
+            if first_sym_01(&f.present) {
+                return "first-symbol-0x01".into();
+            }
+            if run_to_ff(&f.present) {
+                return "symbol-run-to-0xff".into();
+            }
+        }
+        Conf::R4x8(true) => {
+            if f.len < 4 {
+                return "len:1-3".into();
+            }
+            let rows = o1_rows(x);
+            let mut ctx = [false; 256];
+            for (c, r) in rows.iter().enumerate() {
+                ctx[c] = r.iter().any(|b| *b);
+            }
+            if rows.iter().any(first_sym_01) {
+                return "o1-row-first-symbol-0x01".into();
+            }
+            if run_to_ff(&ctx) || rows.iter().any(run_to_ff) {
+                return "o1-symbol-run-to-0xff".into();
+            }
+        }
+        Conf::Nx16(flags) => {
+            use grans::nx16::*;
+            if flags & STRIPE != 0 {
+                // noodles (like htscodecs for this flag alone) writes 4 stripes
+                let mut any01 = false;
+                for j in 0..4 {
+                    let sub: Vec<u8> = x.iter().skip(j).step_by(4).copied().collect();
+                    if sub.len() >= 4 && first_sym_01(&feat(&sub).present) {
+                        any01 = true;
+                    }
+                }
+                if any01 {
+                    return "stripe-first-symbol-0x01".into();
+                }
+            } else if flags & CAT == 0 {
+                // the entropy coder sees the packed bytes when PACK applies; RLE keeps the alphabet
+                let p = if flags & PACK != 0 { packed(x, &f) } else { None };
+                let pf = p.as_deref().map(feat);
+                let ef = pf.as_ref().unwrap_or(&f);
+                if flags & ORDER == 0 && first_sym_01(&ef.present) {
+                    return if p.is_some() { "packed-first-symbol-0x01".into() } else { "first-symbol-0x01".into() };
+                }
+            }
+        }
+        Conf::Aac(flags) => {
+            const STRIPE: u8 = 0x08;
+            const CAT: u8 = 0x20;
+            const PACK: u8 = 0x80;
+            if flags & STRIPE != 0 {
+                if f.len < 4 {
+                    return "stripe-len:1-3".into();
+                }
+                if f.present[255] {
+                    return "has-0xff".into();
+                }
+            } else {
+                let p = if flags & PACK != 0 { packed(x, &f) } else { None };
+                if let Some(p) = &p {
+                    if p.is_empty() {
+                        return "pack-single-symbol".into();
+                    }
+                    if flags & CAT == 0 && p.contains(&255) {
+                        return "packed-has-0xff".into();
+                    }
+                } else if flags & CAT == 0 && f.present[255] {
+                    return "has-0xff".into();
+                }
+            }
+        }
+        Conf::Gp(_) => {}
+    }
+    len_class(f.len).into()
+}
+
+pub fn fqz(lens: &[usize], _quals: &[u8]) -> String {
+    if lens.is_empty() {
+        return "empty".into();
+    }
     let fixed = lens.windows(2).all(|w| w[0] == w[1]);
-    let maxq = quals.iter().copied().max().unwrap_or(0);
-    format!("records:{recs},fixed:{},maxq:{}", fixed as u8, if maxq == 255 { "255" } else { "<255" })
+    format!(
+        "records:{},{}",
+        if lens.len() == 1 { "1" } else { "2+" },
+        if fixed { "fixed-length" } else { "variable-length" }
+    )
 }
 
 pub fn names(list: &[&[u8]]) -> String {
+    if list.is_empty() {
+        return "empty-list".into();
+    }
     let dup = (0..list.len()).any(|i| (0..i).any(|j| list[i] == list[j]));
     let n = match list.len() {
-        0 => "0",
         1 => "1",
-        _ => "2+",
+        2 => "2",
+        3 => "3",
+        _ => "4+",
     };
-    format!("names:{n},dup:{}", dup as u8)
+    format!("names:{n},{}", if dup { "with-duplicates" } else { "distinct" })
 }
